@@ -122,6 +122,21 @@ check("C03",
       "TLA+ spec (LabelledMatrix.tla) model-checked by TLC + TLC validation of every step of recorded operation histories on the real classes",
       "DESIGN.md C03")
 
+check("C15",
+      "TLC checks the algebra of the per-trait summaries (mean between extrema, variance >= 0 and = 0 iff constant, stored "
+      "scale positive) for all taxa axes of <=4 entities over a raw-value table with a constant trait, a 10^6 offset and "
+      "missing values. Histories of taxa-axis operations (construct, select, delete, insert, adjoin, concat, reorder, sort, "
+      "group and the in-place append/remove/incorp) run on DenseBreedingValueMatrix, DenseEstimatedBreedingValueMatrix and "
+      "DenseGenomicEstimatedBreedingValueMatrix in specific/generic and mutating/non-mutating forms with matrix and raw-array "
+      "operands; every step is validated by TLC against the raw table: retained taxa carry their raw values (unscale), NaN "
+      "stays where it was, labels attached, location = nan-mean, scale = nan-std (1 for a constant trait), tmax/tmin/trange/"
+      "tmean/tvar/tstd on the original scale, stored-scale extrema mapped back, arg-extrema attain the extrema.",
+      "Raw values are integers (lattice residual 1e-6); means compared as mean*m and variances as var*m^2; extrema checked on "
+      "traits without a missing value on the axis; two families of genuine defects (in-place append/incorp/remove ignore "
+      "scaling; concat_taxa raises TypeError) are listed known findings.",
+      "TLA+ spec (ScaledBV.tla + SeqOps.tla) model-checked by TLC + TLC validation of every step of recorded histories on the real classes",
+      "DESIGN.md C15")
+
 def build():
     checks = []
     for pid in sorted(CHECKS):
